@@ -35,12 +35,21 @@ Proof. reflexivity. Qed.
 (* ---- Reg.clock: priority reset(==1) > enable(!=0) > hold on the UNMASKED attribute; q gets the masked value *)
 Definition reg_next (he hr : bool) (rv v d e r : Z) : Z :=
   if hr && (r =? 1) then rv else if he && (e =? 0) then v else d.
+(* closes `pair = pair` goals whose right components differ only by redundant masks (v & mask & mask ...), so that a
+   harmless extra `& mask` in the Python source does not break the characterisation *)
+Lemma land_mask_idem v m : Z.land (Z.land v m) m = Z.land v m.
+Proof. rewrite <- Z.land_assoc, Z.land_diag. reflexivity. Qed.
+Ltac leaf_done :=
+  first [ reflexivity
+        | cbv beta iota zeta delta [py_truth negb Z.eqb Pos.eqb Wire_prepare Wire_put trunc mask py_shl];
+          rewrite ?land_mask_idem; reflexivity ].
+
 Lemma Reg_clock_eq w he hr rv st d e r :
   Reg_clock w he hr rv st d e r =
   ({| Reg_s_value := reg_next he hr rv (Reg_s_value st) d e r |}, trunc w (reg_next he hr rv (Reg_s_value st) d e r)).
 Proof.
-  unfold Reg_clock, reg_next. cbv zeta. rewrite Wire_prepare_trunc.
-  destruct he, hr; cbn [negb andb]; destruct (Z.eqb_spec e 0); destruct (Z.eqb_spec r 1); reflexivity.
+  unfold Reg_clock, reg_next. cbv zeta. rewrite ?Wire_prepare_trunc.
+  destruct he, hr; cbn [negb andb]; destruct (Z.eqb_spec e 0); destruct (Z.eqb_spec r 1); leaf_done.
 Qed.
 
 (* ---- SynchronousMemory.clock *)
